@@ -10,7 +10,7 @@ import (
 )
 
 func (w *World) newExec(fn *ssa.Function, c *Contract) *Exec {
-	x := &Exec{w: w, entry: fn, entryKey: fnKey(fn), contract: c, trivial: map[string]int{}, trivialMeta: map[string]*Goal{}, ghostVars: w.ghostVars,
+	x := &Exec{w: w, entry: fn, entryKey: fnKey(fn), contract: c, trivial: map[string]int{}, trivialMeta: map[string]*Goal{}, boundSites: map[string]bool{}, boundLoops: map[string]bool{}, ghostVars: w.ghostVars,
 		notes: map[string]bool{}, maxPaths: 4000, inlined: map[string]bool{}, usedSpecs: map[string]bool{},
 		loops: map[*ssa.Function]*loopAnalysis{}, maxDepth: 8}
 	return x
@@ -63,6 +63,37 @@ func (w *World) verifyFunction(fn *ssa.Function, c *Contract) *Exec {
 		s.add('g', "false", g)
 		x.run(s)
 	}()
+	// every loop / call-site clause of the contract must have been bound to
+	// a loop / call site of the code
+	if c != nil && len(x.errors) == 0 {
+		la := x.loopsOf(fn)
+		for _, li := range la.list {
+			x.boundLoops[li.key] = true
+		}
+		// call sites that exist in the code (reached or not)
+		for _, b := range fn.Blocks {
+			for _, in := range b.Instrs {
+				if ci, ok := in.(ssa.CallInstruction); ok {
+					x.boundSites[fmt.Sprintf("call %s #%d", calleeKeyOf(ci), x.calleeOrdinal(fn, "", in))] = true
+				}
+			}
+		}
+		for k := range c.Loops {
+			if !x.boundLoops[k] {
+				x.errors = append(x.errors, fmt.Sprintf("contract clause for loop %q does not match any loop of %s (re-keying needed)", k, x.entryKey))
+			}
+		}
+		for k := range c.LoopMods {
+			if !x.boundLoops[k] {
+				x.errors = append(x.errors, fmt.Sprintf("contract clause for loop %q does not match any loop of %s (re-keying needed)", k, x.entryKey))
+			}
+		}
+		for k := range c.Sites {
+			if !x.boundSites[k] {
+				x.errors = append(x.errors, fmt.Sprintf("contract clause for site %q does not match any call site of %s (re-keying needed)", k, x.entryKey))
+			}
+		}
+	}
 	return x
 }
 
@@ -89,6 +120,30 @@ func (x *Exec) entryEnv(s *State) *Env {
 			env.vars[name] = SVal{t: t, gt: p.Type()}
 		case *PtrVal:
 			env.vars[name] = SVal{t: s.ptrTerm(t), gt: p.Type()}
+		}
+	}
+	// source-level locals of the entry frame (lowest priority)
+	for name, lr := range top.locals {
+		if _, has := top.regs[lr.v]; !has && !isConstOrGlobal(lr.v) {
+			continue
+		}
+		val := top.regs[lr.v]
+		if val == nil {
+			continue
+		}
+		if lr.isAddr {
+			if pv, ok := val.(*PtrVal); ok {
+				env.vars[name] = SVal{loc: pv, gt: lr.v.Type().Underlying().(*types.Pointer).Elem()}
+			}
+			continue
+		}
+		switch t := val.(type) {
+		case Term:
+			env.vars[name] = SVal{t: t, gt: lr.v.Type()}
+		case *PtrVal:
+			if len(t.path) == 0 && t.kind != pkGlobal && t.kind != pkElem {
+				env.vars[name] = SVal{t: t.base, gt: lr.v.Type()}
+			}
 		}
 	}
 	i := 0
@@ -225,6 +280,9 @@ func (x *Exec) frameGoals(s *State, c *Contract) {
 	if c.ModAll {
 		return
 	}
+	if !c.Allocates && s.alloc.S != s.oldAlloc.S {
+		s.goal(x.entryKey+"#frame", "frame", nil, mkEq(s.alloc, s.oldAlloc), c.Where, "the function allocates but its contract does not say 'allocates'")
+	}
 	allowed := map[string]bool{}
 	for _, n := range x.resolveLocs(x.entry.Pkg.Pkg, c.Modifies) {
 		allowed[n] = true
@@ -238,6 +296,11 @@ func (x *Exec) frameGoals(s *State, c *Contract) {
 		cur := s.heap[n]
 		old := s.oldHeap[n]
 		if cur.S == old.S || allowed[n] {
+			continue
+		}
+		if !s.dirty[n] {
+			// every write went to an object allocated on this path
+			x.trivial[x.entryKey+"#frame"]++
 			continue
 		}
 		r := "r!fr"
@@ -416,7 +479,7 @@ func (x *Exec) loopEntry(s *State, li *loopInfo, from *ssa.BasicBlock) {
 	x.setPhis(s, li, from)
 	s.comment("loop entry %s", li.key)
 	x.checkInvariants(s, li, "inv-entry")
-	{
+	if x.loopAllocates(li) {
 		na := s.fresh("$alloc", "Int")
 		s.assume(app("Bool", ">=", na, s.alloc))
 		s.alloc = na
@@ -522,6 +585,80 @@ func (x *Exec) loopBackEdge(s *State, li *loopInfo, from *ssa.BasicBlock) {
 	x.setPhis(s, li, from)
 	s.comment("loop back edge %s", li.key)
 	x.checkInvariants(s, li, "inv-preserve")
+}
+
+func (x *Exec) loopAllocates(li *loopInfo) bool {
+	for _, b := range li.blocks {
+		for _, in := range b.Instrs {
+			if x.instrAllocates(in, map[*ssa.Function]bool{}) {
+				return true
+			}
+		}
+	}
+	return false
+}
+
+func (x *Exec) fnAllocates(fn *ssa.Function, seen map[*ssa.Function]bool) bool {
+	if seen[fn] {
+		return false
+	}
+	seen[fn] = true
+	if c := x.w.contracts[fnKey(fn)]; c != nil {
+		return c.Allocates
+	}
+	if !inScope(fn) {
+		// unknown external code may return fresh slices
+		return true
+	}
+	for _, b := range fn.Blocks {
+		for _, in := range b.Instrs {
+			if x.instrAllocates(in, seen) {
+				return true
+			}
+		}
+	}
+	return false
+}
+
+func (x *Exec) instrAllocates(in ssa.Instruction, seen map[*ssa.Function]bool) bool {
+	w := x.w
+	switch v := in.(type) {
+	case *ssa.Alloc, *ssa.MakeSlice, *ssa.MakeMap, *ssa.MakeClosure, *ssa.MakeChan:
+		return true
+	case ssa.CallInstruction:
+		c := v.Common()
+		if b, ok := c.Value.(*ssa.Builtin); ok {
+			return b.Name() == "append"
+		}
+		if c.IsInvoke() {
+			ikey := "(" + typeKey(c.Value.Type()) + ")." + c.Method.Name()
+			if ct := w.contracts[ikey]; ct != nil {
+				return ct.Allocates
+			}
+			if it, ok := c.Value.Type().Underlying().(*types.Interface); ok && w.sortOf(c.Value.Type()) == sortAny {
+				if !w.isSealed(c.Value.Type()) {
+					return true
+				}
+				for _, con := range w.implsOf(it) {
+					if m := w.prog.LookupMethod(con.typ, c.Method.Pkg(), c.Method.Name()); m != nil && x.fnAllocates(m, seen) {
+						return true
+					}
+				}
+				return false
+			}
+			return true
+		}
+		if f := c.StaticCallee(); f != nil {
+			return x.fnAllocates(f, seen)
+		}
+		if n, ok := types.Unalias(c.Value.Type()).(*types.Named); ok {
+			if ct := w.contracts["type:"+typeKey(n)]; ct != nil {
+				return ct.Allocates
+			}
+		}
+		return true
+	}
+	return false
 }
 
 // loopModset: heap arrays that may be written by the loop body.
